@@ -14,7 +14,7 @@ ENGINES = [
     {"name": "curve", "path": "sim/eng_curve.py", "serves_properties": ["C15"],
      "kind_free_text": "world of 1-4 Curve objects with seeded aliasing layouts and simulated point types (value-seam faults); consistency / atomicity / non-interference oracles"},
 ]
-_NOTE = ("Sampling, not proof. Trusted base: the exact reference model /verif/sim/model.py (own self-test), the plan executor, "
+_NOTE = ("Sampling, not proof. A violation is replayed in a fresh interpreter before it is reported; when it needs process-global history the replay file carries the earlier plans of the worker process as a session.  Trusted base: the exact reference model /verif/sim/model.py (own self-test), the plan executor, "
          "CPython + numpy. All of compmec.nurbs runs as shipped from /repo/src; only the environment side of the seams is stubbed.")
 CHECKS = {
     "C03": {"engine": "kv", "technique": "deterministic simulation: seeded operation-and-fault histories on KnotVector objects vs exact reference model, with shrinking and replay",
